@@ -23,3 +23,11 @@ impl PageLoader {
         self.inner.probe(load, io_handle, user_data)
     }
 }
+
+#[cfg(nomt_verif)]
+impl PageLoader {
+    /// Verification hook: a loader over a hand-built bitbox table.
+    pub fn verif_new(inner: bitbox::PageLoader) -> Self {
+        PageLoader { inner }
+    }
+}
